@@ -84,13 +84,18 @@ ENGINES = {
     'tdcorr_bk': ('TimeDependentCorrelationEvolveBraKet', 'TEBDEngine'),
     'spectral': ('SpectralSimulation', 'TEBDEngine'),
     'vumps': ('GroundStateSearch', 'TwoSiteVUMPSEngine'),  # resume_run is a documented NotImplementedError: files only
+    # time-dependent Hamiltonians (the model is re-initialised at the current time, also right after a resume)
+    'tdtebd': ('RealTimeEvolution', 'TimeDependentTEBD'),
+    'tdexpmpo': ('RealTimeEvolution', 'TimeDependentExpMPOEvolution'),
+    'tdtdvp2': ('RealTimeEvolution', 'TimeDependentTwoSiteTDVP'),
 }
+TIME_DEPENDENT = ('tdtebd', 'tdexpmpo', 'tdtdvp2')
 
 
 def gen_config(seed, tier='quick', family=None):
     wl = random.Random(core.sub_seed(seed, 'config'))
     fam = family or wl.choice(['dmrg2', 'dmrg2', 'dmrg1', 'tebd', 'tebd', 'qrtebd', 'tdvp2', 'tdvp1', 'expmpo',
-                               'idmrg', 'tdcorr', 'tdcorr_bk', 'spectral', 'vumps'])
+                               'idmrg', 'tdcorr', 'tdcorr_bk', 'spectral', 'vumps', 'tdtebd', 'tdexpmpo', 'tdtdvp2'])
     L = wl.choice([4, 6]) if tier == 'quick' else wl.choice([4, 6, 6, 8])
     model = wl.choice(['TFIChain', 'XXZChain'])
     conserve = wl.choice([None, 'best'])
@@ -144,9 +149,10 @@ def gen_config(seed, tier='quick', family=None):
             'dt': wl.choice([0.05, 0.1]),
             'N_steps': wl.choice([1, 2]),
             'n_outer': wl.choice([3, 4, 6]),
-            'order': wl.choice([1, 2, 4, '4_opt']) if fam in ('tebd', 'qrtebd', 'tdcorr', 'tdcorr_bk', 'spectral') else None,
-            'compression': wl.choice(['SVD', 'variational', 'zip_up']) if fam == 'expmpo' else None,
-            'approximation': wl.choice(['I', 'II']) if fam == 'expmpo' else None,
+            'order': (wl.choice([1, 2, 4, '4_opt']) if fam in ('tebd', 'qrtebd', 'tdcorr', 'tdcorr_bk', 'spectral')
+                      else (wl.choice([1, 2]) if fam == 'tdtebd' else None)),
+            'compression': wl.choice(['SVD', 'variational', 'zip_up']) if fam in ('expmpo', 'tdexpmpo') else None,
+            'approximation': wl.choice(['I', 'II']) if fam in ('expmpo', 'tdexpmpo') else None,
             'start_time': wl.choice([0.0, 0.0, 0.0, 1.5]),
             'preserve_norm': wl.choice([None, None, True, False]),
         })
@@ -159,7 +165,11 @@ def build_params(cfg, out_name='results'):
     fam = cfg['family']
     bc = 'infinite' if fam in ('idmrg', 'vumps') else 'finite'
     is_gs = fam.startswith('dmrg') or fam in ('idmrg', 'vumps')
-    if cfg['model'] == 'TFIChain':
+    if fam in TIME_DEPENDENT:
+        import checks.c18_models  # noqa: F401  (defines DrivenXXZ)
+        model_params = {'L': L, 'Jxx': 1.0, 'Jz': 1.5, 'h': 0.7, 'omega': 2.0, 'bc_MPS': 'finite'}
+        init = {'method': 'lat_product_state', 'product_state': [['up'], ['down']]}
+    elif cfg['model'] == 'TFIChain':
         model_params = {'L': L, 'J': 1.0, 'g': 1.5, 'bc_MPS': bc, 'conserve': cfg['conserve']}
         init = {'method': 'lat_product_state', 'product_state': [['up']]}
         if not is_gs:
@@ -172,7 +182,7 @@ def build_params(cfg, out_name='results'):
         init = {'method': 'lat_product_state', 'product_state': [['up'], ['down']]}
     params = {
         'simulation_class': sim_class,
-        'model_class': cfg['model'],
+        'model_class': 'DrivenXXZ' if fam in TIME_DEPENDENT else cfg['model'],
         'model_params': model_params,
         'initial_state_params': init,
         'algorithm_class': alg,
@@ -221,10 +231,10 @@ def build_params(cfg, out_name='results'):
         ap = {'trunc_params': trunc, 'dt': cfg['dt'], 'N_steps': cfg['N_steps']}
         if cfg['order'] is not None:
             ap['order'] = cfg['order']
-        if cfg['family'] == 'expmpo':
+        if cfg['family'] in ('expmpo', 'tdexpmpo'):
             ap['compression_method'] = cfg['compression']
             ap['approximation'] = cfg['approximation']
-        if cfg['family'].startswith('tdvp'):
+        if cfg['family'].startswith('tdvp') or cfg['family'] == 'tdtdvp2':
             ap['lanczos_params'] = {'N_min': 2, 'N_max': 20}
         if cfg.get('start_time'):
             ap['start_time'] = cfg['start_time']
